@@ -134,6 +134,22 @@ func dropBody(kw string, nextLine bool, msg ...string) injector {
 		cands, _ := collect(*tree, func(d, p *Dir) bool {
 			return d.Kw == kw && d.BodyKind != "" && (kw != "TYPE" || len(d.Params) == 1 || d.Params[1].Text == "jsight" || d.Params[1].Text == "regex")
 		})
+		// The body is missing only if what follows cannot be read as one: a response code is a valid number schema
+		// ("200 /* note */" even with its annotation), and the lines after it may then scan as other directives - the
+		// text would be another valid document, not a faulty one.  Sites followed by a response code are not used.
+		var order []*Dir
+		Walk(*tree, func(d, _ *Dir) { order = append(order, d) })
+		next := map[*Dir]*Dir{}
+		for i := 0; i+1 < len(order); i++ {
+			next[order[i]] = order[i+1]
+		}
+		sound := cands[:0:0]
+		for _, d := range cands {
+			if n := next[d]; n == nil || !isCode(n.Kw) {
+				sound = append(sound, d)
+			}
+		}
+		cands = sound
 		if len(cands) == 0 {
 			return nil
 		}
